@@ -181,6 +181,9 @@ static inline void __syncwarp() { c20::barrier(); }
   static inline T atomicAnd(T *p, T v) { T o = *p; *p = o & v; return o; } \
   static inline T atomicOr(T *p, T v) { T o = *p; *p = o | v; return o; } \
   static inline T atomicXor(T *p, T v) { T o = *p; *p = o ^ v; return o; }
+// the real signatures (CUDA C++ programming guide B.14.1.6/7): a limit argument, unsigned int only
+static inline unsigned int atomicInc(unsigned int *p, unsigned int lim) { unsigned int o = *p; *p = (o >= lim) ? 0 : o + 1; return o; }
+static inline unsigned int atomicDec(unsigned int *p, unsigned int lim) { unsigned int o = *p; *p = (o == 0 || o > lim) ? lim : o - 1; return o; }
 C20_ATOMICS(int) C20_ATOMICS(unsigned int) C20_ATOMICS(unsigned long long) C20_ATOMICS(float) C20_ATOMICS(double)
 C20_ATOMICS_BITS(int) C20_ATOMICS_BITS(unsigned int) C20_ATOMICS_BITS(unsigned long long)
 #endif
